@@ -525,6 +525,14 @@ def _none_edge(f, t):
         return None
     dest = t["dest"][0]
     b = t["target"]
+    # `a.get(i).zip(a.get(i + 1))`: None as soon as either is None - follow the Option through zip
+    for _ in range(2):
+        z = [(bi, t2) for bi, t2 in f.calls() if norm(t2["f"].get("inst") or "") == "core::option::{impl}::zip" and any(place_of(a) == [dest] for a in t2["args"])]
+        if len(z) == 1 and z[0][1]["target"] is not None and len(z[0][1]["dest"]) == 1:
+            dest = z[0][1]["dest"][0]
+            b = z[0][1]["target"]
+        else:
+            break
     for _ in range(3):
         blk = f.blocks[b]
         disc = None
